@@ -1,1 +1,6 @@
 import SmtpV.Props.C18
+#print axioms SmtpV.Props.C18.C18_mail_starts_clean
+#print axioms SmtpV.Props.C18.C18_rcpt_appends
+#print axioms SmtpV.Props.C18.C18_reset_clears
+#print axioms SmtpV.Props.C18.C18_one_callback_per_recipient
+#print axioms SmtpV.Props.C18.C18_refusal_not_lost
